@@ -10,5 +10,6 @@ INVARIANT WiringExact
 INVARIANT SelfOnlyWhenMany
 INVARIANT PlaceholdersExist
 INVARIANT InverseExact
+INVARIANT SupplyReachesConstants
 INVARIANT Obl
 CHECK_DEADLOCK FALSE
